@@ -88,18 +88,20 @@ def main():
     head = subprocess.check_output(["git", "-C", "/repo", "rev-parse", "HEAD"]).decode().strip()
     wt_head = subprocess.check_output(["git", "-C", wt, "rev-parse", "HEAD"]).decode().strip()
     meta["steps"]["worktree_rebased_from"] = None
+    # NOTE: never `git stash` here - the stash is shared by all worktrees of /repo and seeding
+    # agents work in sibling worktrees concurrently. The stored patch.diff is the change.
+    sh("git checkout -- .", cwd=wt)
     if head != wt_head:
-        sh("git stash", cwd=wt)
         sh(["git", "checkout", "-q", "--detach", head], cwd=wt)
-        rc, out = sh("git stash pop", cwd=wt)
         meta["steps"]["worktree_rebased_from"] = wt_head[:10]
-        meta["steps"]["worktree_rebase_clean"] = rc == 0
+    rc, out = sh(["git", "apply", patch], cwd=wt)
+    meta["steps"]["worktree_patch_applies"] = rc == 0
     demo = os.path.join(sd, "demo", "run.sh")
     if os.path.exists(demo):
         rc_with, out_with = sh(["bash", demo], cwd=os.path.join(sd, "demo"), timeout=1800)
-        sh("git stash", cwd=wt)
+        sh("git checkout -- .", cwd=wt)
         rc_without, out_without = sh(["bash", demo], cwd=os.path.join(sd, "demo"), timeout=1800)
-        sh("git stash pop", cwd=wt)
+        sh(["git", "apply", patch], cwd=wt)
         meta["steps"]["demo_fails_with_change"] = rc_with != 0
         meta["steps"]["demo_passes_without_change"] = rc_without == 0
         meta["steps"]["demo_tail_with_change"] = out_with[-600:]
